@@ -545,6 +545,11 @@ class Subprocess(object):
         """ The process was reaped and we need to report and manage its state
         """
         self.drain()
+        for dispatcher in self.dispatchers.values():
+            # log what the output dispatchers were holding back while
+            # waiting for the rest of a capture token that cannot come now
+            if hasattr(dispatcher, 'record_output'):
+                dispatcher.record_output(final=True)
 
         es, msg = decode_wait_status(sts)
 
